@@ -1156,6 +1156,27 @@ def M_fmt_arguments_from_str(it, ctx, args, st):
         raise Unsupported('Arguments::from_str')
     yield st, Agg('FmtArguments', (st.ref(bstr(bytes([len(py)]) + py + b'\0')), None))
 
+
+# ------------------------------------------------------------------ awaiting a repository async fn: poll its state machine
+def M_poll_async_body(it, ctx, args, st):
+    import re as _re
+    m = _re.match(r'<\{async fn body of ([^<({]+)', ctx.callee.key)
+    path = m.group(1).strip()
+    crate = ctx.fr.fn.crate
+    cands = [n for n in it.p.fns if n.endswith(path + '::{closure#0}') and (n.startswith(crate + '::') or n == path + '::{closure#0}')]
+    if len(cands) != 1:
+        raise Unsupported(f'async body of {path}: {len(cands)} state machines')
+    # the callee's generics: bound from the coroutine type's own argument list, in declaration order
+    tenv = dict(ctx.fr.tenv)
+    mg = _re.match(r'<\{async fn body of [^<({]+<(.*)>\(\)\}', ctx.callee.key)
+    if mg:
+        names = it.p.fn_generics(cands[0].rsplit('::{closure#0}', 1)[0]) or []
+        from .parse import split_top as _st
+        from .types import ty_parse as _tp, subst as _sub
+        for g, a in zip(names, _st(mg.group(1))):
+            tenv[g] = it.canon_ty(crate, _sub(_tp(a), ctx.fr.tenv))
+    yield from it.invoke(cands[0], list(args), st, tenv, ctx.fr.depth + 1)
+
 P = r'(?:std|core|alloc)::'
 OPT = P + r'option::Option::<.*>::'
 RES = P + r'result::Result::<.*>::'
@@ -1233,6 +1254,7 @@ MODELS = [
     (r'<[iu](?:8|16|32|64|128|size) as ' + P + r'clone::Clone>::clone|<bool as ' + P + r'clone::Clone>::clone', M_clone),
     (r'<(?:&.*|' + P + r'(?:option::Option|result::Result|vec::Vec|string::String|boxed::Box|collections::\w+)<?.*>?) as ' + P + r'clone::Clone>::clone', M_clone),
     (r'<' + P + r'option::Option<.*> as ' + P + r'cmp::PartialEq>::eq', M_prim_eq), (r'<' + P + r'option::Option<.*> as ' + P + r'cmp::PartialEq>::ne', M_prim_ne),
+    (r'<\{async fn body of .*\} as (?:futures_core|std::future|core::future)::Future>::poll', M_poll_async_body),
     (P + r'mem::drop::<.*>', M_unit),
     (r'<(?:' + P + r'string::String|str) as ' + P + r'ops::Index<' + P + r'ops::Range\w*(<usize>)?>>::index', M_str_index_range),
     (P + r'fmt::rt::Argument::<.*>::new_\w+::<.*>|' + P + r'fmt::rt::Argument::new_\w+::<.*>', M_fmt_argument),
